@@ -76,6 +76,17 @@ def alg_cases(rng, tier):
                 ty = "I" if (i % 3 == ALGS.index(alg)) and gen.int_domain_ok(g) else "D"
                 scale = 0 if ty == "I" else rng.choice([0, 0, -3, 5])
                 cases.append("X %s %s %d %d %s" % (alg, ty, scale, k, gt))
+    # inputs on which a non-shortest closing path / a too sparse spanner exceeds the (2k-1) factor (seeded changes C06/m3 = r3m1, C06/r3m2)
+    for _ in range(12 if tier == "quick" else 60):
+        g = gen.petal_gadget(rng.randint(3, 6), rng.choice([50, 100, 1000]))
+        if rng.random() < 0.7: g = gen.relabel(rng, g[0], g[1])
+        gt = gen.graph_tokens(g)
+        for k in (2, 3):
+            for alg in ALGS: cases.append("X %s D 0 %d %s" % (alg, k, gt))
+    if tier == "thorough":
+        for k, n in ((5, 131), (6, 163)):
+            gt = gen.graph_tokens(gen.path_with_chords(n, [2 ** k - 2, 2 ** k - 1]))
+            for alg in ALGS: cases.append("X %s D 0 %d %s" % (alg, k, gt))
     return cases
 
 
